@@ -276,12 +276,10 @@ class NextNull(Analysis):
         return st
 
 
-NEXT_NULL_ACCEPTED = {
-    ("BTree_rangeSearch", "lowbucket"):
-        "reached only when self->len >= 2: a tree with more than one child has "
-        "more than one leaf, so the first leaf has a successor (the source "
-        "asserts next != NULL)",
-}
+# No accepted idiom is left: BTree_rangeSearch used to follow the first leaf's
+# successor under "self->len >= 2" (root child count); that guard turned out to
+# be the wrong one (fix bc6c5e4) and the successor is now NULL-tested itself.
+NEXT_NULL_ACCEPTED = {}
 
 
 def next_null(tu):
